@@ -1770,6 +1770,44 @@ func r6Open(c *RuleCtx) {
 	pa.edge = et.edge
 	pa.run(0)
 	labels := map[string]int{}
+	// deferred closures guarded by the error variable or by a flag (`loaded := false; defer func() { if
+	// !loaded { _ = rv.Close() } }()`): what they do at an exit depends on the guard's state there
+	type guardedDefer struct {
+		at              *ssa.Defer
+		cell            *ssa.Alloc
+		whenBad, whenOK uint64
+	}
+	var gdefers []guardedDefer
+	eachInstr(fn, func(_ *ssa.BasicBlock, in ssa.Instruction) {
+		d, ok := in.(*ssa.Defer)
+		if !ok {
+			return
+		}
+		cl := resolvedCallee(d)
+		if cl == nil || cl.Parent() != fn {
+			return
+		}
+		if cell, nn, nl, ok := errGuardedClosure(cl, base); ok {
+			gdefers = append(gdefers, guardedDefer{d, cell, nn & (evFClosed | evSegClosed), nl & (evFClosed | evSegClosed)})
+		}
+	})
+	deferredAt := func(ret *ssa.Return) (add uint64, known bool) {
+		known = true
+		for _, g := range gdefers {
+			if !(g.at.Block() == ret.Block() || g.at.Block().Dominates(ret.Block())) {
+				continue
+			}
+			switch guardStateAt(g.cell, ret.Block()) {
+			case nonNil:
+				add |= g.whenBad
+			case isNil:
+				add |= g.whenOK
+			default:
+				known = false
+			}
+		}
+		return add, known
+	}
 	for _, ret := range returnsOf(fn) {
 		if !pa.reachable(ret.Block()) {
 			continue
@@ -1781,10 +1819,14 @@ func r6Open(c *RuleCtx) {
 			c.okP(props, key, pos, "exit after failed os.Open needs no release")
 			continue
 		}
+		dAdd, dKnown := deferredAt(ret)
 		if ns != isNil {
 			okc := true
 			why := ""
 			for _, ev := range pa.statesBefore(ret) {
+				if dKnown {
+					ev |= dAdd
+				}
 				if ev&evSegBuilt != 0 {
 					if ev&evSegClosed == 0 {
 						okc = false
@@ -1801,7 +1843,12 @@ func r6Open(c *RuleCtx) {
 		if ns != nonNil {
 			okc := true
 			var why []string
+			if !dKnown {
+				okc = false
+				why = append(why, "a deferred cleanup runs at this exit under a guard whose state is not known here")
+			}
 			for _, ev := range pa.statesBefore(ret) {
+				ev |= dAdd
 				if ev&(evFClosed|evSegClosed) != 0 {
 					okc = false
 					why = append(why, "the segment is closed on a path that returns it")
